@@ -13,7 +13,7 @@ import threading
 _ll2c_lock = threading.Lock()
 
 CLANG_FLAGS = ['-std=c++17', '-O0', '-DNDEBUG', '-fno-rtti', '-fno-discard-value-names', '-Xclang', '-disable-llvm-passes',
-               '-Wno-everything', '-DTRADIAS_CONTIGUOUS_VERIF', '-I' + os.path.join(REPO, 'src'), '-I' + os.path.join(VERIF, 'inst'), '-S', '-emit-llvm']
+               '-Wno-everything', '-fno-access-control', '-DTRADIAS_CONTIGUOUS_VERIF', '-I' + os.path.join(REPO, 'src'), '-I' + os.path.join(VERIF, 'inst'), '-S', '-emit-llvm']
 CBMC_TIMEOUT = int(os.environ.get('VERIF_CBMC_TIMEOUT', '900'))
 CBMC_MEM_GB = int(os.environ.get('VERIF_CBMC_MEM_GB', '10'))
 
@@ -48,7 +48,7 @@ def cache_dir():
     global _cache_key
     if _cache_key is None:
         files = tree_files(os.path.join(REPO, 'src')) + tree_files(os.path.join(VERIF, 'inst')) + \
-            [os.path.join(VERIF, 'tools', 'll2c.py'), os.path.join(VERIF, 'tools', 'vf.py')]
+            [os.path.join(VERIF, 'tools', 'll2c.py'), os.path.join(VERIF, 'tools', 'vf.py'), os.path.join(VERIF, 'tools', 'layout.py')]
         _cache_key = _sha(files)
     d = os.path.join(BUILD, _cache_key)
     os.makedirs(d, exist_ok=True)
@@ -77,8 +77,9 @@ def run(cmd, timeout, cwd=None, limit=True):
         return 'timeout', (e.stdout or b'').decode('utf8', 'replace') if isinstance(e.stdout, bytes) else (e.stdout or ''), '', time.time() - t0
 
 
-def build_tu(tu, defines=(), exceptions=False):
-    """compile inst/<tu>.cpp against /repo's current headers, translate to C.  Returns (c_path, names dict)."""
+def build_tu(tu, defines=(), exceptions=False, gen=None):
+    """compile inst/<tu>.cpp (or the generated TU text `gen`) against /repo's current headers, translate to C.
+    Returns (c_path, names dict)."""
     d = cache_dir()
     tag = tu + ''.join('_' + re.sub(r'[^A-Za-z0-9]', '', x) for x in defines) + ('_exc' if exceptions else '')
     cpath = os.path.join(d, tag + '.c')
@@ -86,8 +87,11 @@ def build_tu(tu, defines=(), exceptions=False):
     if os.path.exists(cpath) and os.path.exists(npath):
         return cpath, json.load(open(npath))
     ll = os.path.join(d, tag + '.ll')
-    cmd = ['clang++'] + CLANG_FLAGS + (['-fexceptions'] if exceptions else ['-fno-exceptions']) + ['-D' + x for x in defines] + \
-        [os.path.join(VERIF, 'inst', tu + '.cpp'), '-o', ll]
+    srcp = os.path.join(VERIF, 'inst', tu + '.cpp')
+    if gen is not None:
+        srcp = os.path.join(d, tag + '.cpp')
+        open(srcp, 'w').write(gen)
+    cmd = ['clang++'] + CLANG_FLAGS + (['-fexceptions'] if exceptions else ['-fno-exceptions']) + ['-D' + x for x in defines] + [srcp, '-o', ll]
     rc, out, err, _ = run(cmd, 600, limit=False)
     if rc != 0:
         raise Undecided('instantiation TU %s does not compile against /repo (exit %s):\n%s' % (tag, rc, err[-3000:]))
@@ -173,11 +177,11 @@ def run_unit(u, workdir):
     t0 = time.time()
     res = {'id': u['id'], 'status': 'undecided', 'obligations': [], 'reason': '', 'props': u.get('props', [])}
     try:
-        cpath, names = build_tu(u['tu'], u.get('defines', ()), u.get('exceptions', False))
+        cpath, names = build_tu(u['tu'], u.get('defines', ()), u.get('exceptions', False), u.get('gen'))
         rs = Resolver(cpath, names)
         vars = dict(u.get('vars', {}))
         vars['TU_C'] = cpath
-        tpl = open(os.path.join(VERIF, 'contracts', u['template'])).read()
+        tpl = u['template_text'] if 'template_text' in u else open(os.path.join(VERIF, 'contracts', u['template'])).read()
         src = rs.subst(tpl, vars)
         enforce = rs.subst(u['enforce'], vars) if u.get('enforce') else None
         replace = [rs.subst(x, vars) for x in u.get('replace', [])]
@@ -275,7 +279,7 @@ def run_units(units, workdir, jobs=16):
         seen.setdefault(k, u)
     def b(k):
         try:
-            build_tu(*k)
+            build_tu(*k, gen=seen[k].get('gen'))
         except Undecided:
             pass
     with ThreadPoolExecutor(jobs) as ex:
